@@ -317,7 +317,8 @@ class C04(Engine):
             # (a) every file still gets exactly one verdict line
             n_fatal = len(fatal_paths)
             if named_ok != n_fatal:
-                vs.append(V("C04.a-one-verdict-per-file", f"{n_fatal} fatal files, {named_ok} fatal lines", kind="fatal-lines"))
+                vs.append(V("C04.a-one-verdict-per-file", "fewer fatal lines than fatally unparsable files" if named_ok < n_fatal
+                            else "more fatal lines than fatally unparsable files", fatal_files=n_fatal, fatal_lines=named_ok))
         want_plain = collections.Counter({k: v for k, v in want.items() if k[0] != "fatal"})
         if got != want_plain:
             missing = want_plain - got
@@ -340,8 +341,8 @@ class C04(Engine):
                 first = "notice" if "notice" in classes else "clean"
                 vs.append(V("C04.c-exit-status", f"all files OK ({'with' if 'notice' in classes else 'no'} Notices) but exit status {ex}"))
             if not all_ok and ex in (0, None):
-                lastc = classes[-1] if mode == "explicit" else "?"
-                vs.append(V("C04.c-exit-status", f"an erroneous file in the run but exit status {ex} (last file {lastc})"))
+                vs.append(V("C04.c-exit-status", f"an erroneous file in the run but exit status {ex}",
+                            last_file=classes[-1] if mode == "explicit" else "order chosen by the glob seam"))
         return vs
 
     def class_of_name(self, sc, sel, classes, name):
